@@ -43,8 +43,12 @@ def judge_table(c, r, trace_path, header_lines=1):
         c.report(key, "trace line %d: %s" % (l, lines[l - 1][:400]), rp)
 
 
-def need(r, name, what):
-    """Vacuity guard: the generator must have produced cases the real code accepts."""
+def need(c, r, name, what):
+    """Vacuity guard: the generator must have produced cases the real code accepts.  It never masks
+    a verdict: with monitor failures already reported the run ends as VIOLATION, not as exit 2."""
+    if r.stats.get(name, 0) <= 0 and (c.violations or c.known_hits):
+        c.notes.append("vacuity guard not applied (violations reported): no %s" % what)
+        return 0
     if r.stats.get(name, 0) <= 0:
         raise vlib.Infra("vacuous run: no %s (VERIF-STAT %s = %s)" % (what, name, r.stats.get(name)))
     return r.stats[name]
